@@ -187,6 +187,13 @@ impl<Read: ReadHalf> ReadConnection<Read> {
     pub fn read_half(&self) -> &Read {
         &self.socket
     }
+
+    /// Verification hook: `(read_pos, msg_pos, buffer.len())`.
+    #[cfg(zlink_verif)]
+    #[doc(hidden)]
+    pub fn verif_state(&self) -> (usize, usize, usize) {
+        (self.read_pos, self.msg_pos, self.buffer.len())
+    }
 }
 
 #[cfg(test)]
